@@ -233,6 +233,26 @@ pub fn run_scenario(sc: &Scenario<'_>, tr: &mut Trace) -> End {
                 let mut k2 = FabricKit { rcac: kit.rcac.clone(), ipk: [0x45; 16], nodes: Vec::new() };
                 k2.nodes.push((kit.nodes[2].0, { let mut c = CanonPkcSecretKey::new(); c.load(kit.nodes[2].1.reference()); c }, kit.nodes[2].2.clone()));
                 fab_idx[i] = Some(install_fabric(m, &k2, 0));
+            } else if i == 1 && sc.validity2 == "forged" {
+                // an ordinary member (node 0x1002) signs, with its operational key, a NOC of its own making for the
+                // administrator's node id and presents its genuine NOC in the ICAC position
+                use rs_matter::tlv::TLVElement;
+                let (_, msk, mnoc) = &kit.nodes[2];
+                let mkey = crate::c19::key_from_secret(msk);
+                let fkey = crate::c19::new_key(&crypto);
+                let member_subject: Vec<(u8, u64)> = TLVElement::new(mnoc).structure().unwrap().find_ctx(6).unwrap().list().unwrap().iter()
+                    .map(|e| { let e = e.unwrap(); (match e.tag().unwrap() { rs_matter::tlv::TLVTag::Context(t) => t, _ => 0 }, e.u64().unwrap()) }).collect();
+                let mut subject = member_subject.clone();
+                for a in subject.iter_mut() {
+                    if a.0 == 17 {
+                        a.1 = 0x1001;
+                    }
+                }
+                let forged = crate::c19::build(&crate::c19::Spec { subject, issuer: member_subject, key: fkey.clone(), signer: mkey.clone(), akid: mkey.kid, nb: 1, na: 0, is_ca: false,
+                    path_len: None, ku: crate::c19::KU_DIGSIG, eku: vec![1, 2], crit_ext: false, exts: vec![], bad_sig: false, serial: 9 });
+                let mut ipk = CanonAeadKey::new();
+                ipk.load_from_array(&kit.ipk);
+                fab_idx[i] = Some(m.with_state(|state| state.fabrics.add(&crypto, fkey.secret.reference(), &kit.rcac, &forged, mnoc, Some(ipk.reference()), 0xFFF1, 0x1001).unwrap().fab_idx()));
             } else if i == 2 && sc.second_fabric {
                 let kit2 = make_fabric_ex(&crypto, &[DEV_NODE + 7, 0x1003], 2, [0x55; 16]);
                 install_fabric(&dev, &kit2, 0);
